@@ -219,6 +219,8 @@ def generate(rng, tier):
                     op["preempt"] = rng.random() < 0.7
                 if rng.random() < 0.15:
                     op["release"] = False
+                elif rng.random() < 0.35:
+                    op["ctx"] = True         # `with resource.request() as req:`
             if patience is not None:
                 op["patience"] = patience
             ops.append(op)
